@@ -362,7 +362,19 @@ impl World {
             self.hin.close();
         }
         let le = self.d.local_enr();
-        let done: Vec<Value> = std::mem::take(&mut *self.done.lock().unwrap());
+        let mut done: Vec<Value> = std::mem::take(&mut *self.done.lock().unwrap());
+        // results are named now (records may have become known after the lookup was started)
+        for d in done.iter_mut() {
+            if let Some(raw) = d.get("res_raw").and_then(|x| x.as_array()).cloned() {
+                let names: Vec<String> = raw.iter().map(|h| {
+                    let bytes = hex::decode(h.as_str().unwrap()).unwrap();
+                    match <Enr as alloy_rlp::Decodable>::decode(&mut &bytes[..]) { Ok(e) => if e.node_id() == self.local_id { "L".to_string() } else { self.rec_name(&e) }, Err(_) => "?".to_string() }
+                }).collect();
+                let o = d.as_object_mut().unwrap();
+                o.remove("res_raw");
+                o.insert("res".into(), json!(names));
+            }
+        }
         json!({"hin": hin, "ev": ev, "table": table, "bans": {"nodes": bn, "ips": bi},
                "local": {"seq": le.seq(), "udp4": le.udp4_socket().map(|s| self.sock_name(&SocketAddr::V4(s))).unwrap_or_else(|| "none".into()),
                          "udp6": le.udp6_socket().map(|s| self.sock_name(&SocketAddr::V6(s))).unwrap_or_else(|| "none".into()), "valid": le.verify()},
@@ -483,7 +495,7 @@ impl World {
                 let done = self.done.clone();
                 let pred = op.get("pred").and_then(|x| x.as_str()).map(|s| s.to_string());
                 let k = op.get("k").and_then(|x| x.as_u64()).unwrap_or(16) as usize;
-                let names = self.back.clone();
+
                 let lid = self.local_id;
                 // rank of every pool node (and the local node) by XOR distance to the target: the order a result must be in
                 let tkey = discv5::Key::from(target);
@@ -491,6 +503,11 @@ impl World {
                 order.sort_by_key(|id| tkey.distance(&discv5::Key::from(*id)));
                 let ranks: HashMap<NodeId, usize> = order.iter().enumerate().map(|(i, id)| (*id, i + 1)).collect();
                 info.insert("k".into(), json!(if pred.is_some() { k } else { 16 }));
+                // the candidates a lookup starts from: the (at most k) table entries closest to the target
+                let mut tab: Vec<NodeId> = self.d.table_entries_id();
+                tab.sort_by_key(|id| tkey.distance(&discv5::Key::from(*id)));
+                tab.truncate(if pred.is_some() { k } else { 16 });
+                info.insert("closest".into(), json!(tab.iter().map(|id| self.id_name(id)).collect::<Vec<_>>()));
                 info.insert("pred".into(), json!(pred.is_some()));
                 let fut_plain = if pred.is_none() { Some(self.d.find_node(target)) } else { None };
                 let fut_pred = if pred.is_some() { Some(self.d.find_node_predicate(target, Box::new(|e: &Enr| e.udp4_socket().is_some()), k)) } else { None };
@@ -501,7 +518,7 @@ impl World {
                         _ => unreachable!(),
                     };
                     let v = match r {
-                        Ok(enrs) => json!({"call": name, "ok": true, "res": enrs.iter().map(|e| if e.node_id() == lid { "L".to_string() } else { names.get(&alloy_rlp::encode(e)).cloned().unwrap_or_else(|| "?".into()) }).collect::<Vec<_>>(),
+                        Ok(enrs) => json!({"call": name, "ok": true, "res_raw": enrs.iter().map(|e| hex::encode(alloy_rlp::encode(e))).collect::<Vec<_>>(),
                                            "ranks": enrs.iter().map(|e| ranks.get(&e.node_id()).copied().unwrap_or(0)).collect::<Vec<_>>()}),
                         Err(e) => json!({"call": name, "ok": false, "err": format!("{e:?}")}),
                     };
@@ -515,11 +532,11 @@ impl World {
                 let name = format!("l{}", self.ncalls);
                 info.insert("call".into(), json!(name));
                 let done = self.done.clone();
-                let names = self.back.clone();
+
                 let fut = self.d.find_node_designated_peer(e, ds);
                 tokio::spawn(async move {
                     let v = match fut.await {
-                        Ok(enrs) => json!({"call": name, "ok": true, "res": enrs.iter().map(|e| names.get(&alloy_rlp::encode(e)).cloned().unwrap_or_else(|| "?".into())).collect::<Vec<_>>()}),
+                        Ok(enrs) => json!({"call": name, "ok": true, "res_raw": enrs.iter().map(|e| hex::encode(alloy_rlp::encode(e))).collect::<Vec<_>>()}),
                         Err(e) => json!({"call": name, "ok": false, "err": format!("{e:?}")}),
                     };
                     done.lock().unwrap().push(v);
@@ -559,6 +576,7 @@ impl World {
                         self.d.ban_ip(*ip, None);
                     }
                     for spec in op["table"].as_array().unwrap() {
+                        let _ = self.rec(spec.as_str().unwrap());
                         let e = w2.rec(spec.as_str().unwrap());
                         let _ = w2.d.add_enr(e);
                     }
@@ -597,6 +615,11 @@ impl World {
             "age" => {
                 let ok = self.d.verif_age(Duration::from_millis(util::i(op, "ms") as u64)).await;
                 info.insert("ok".into(), json!(ok));
+                // The poll that notices elapsed peer timeouts still works with the capacity computed before them, and nothing wakes the
+                // service up again by itself; without a further wake-up the next event would race the query poll inside select! (two
+                // legitimate but different schedules). One wake-up brings the service to a fixed point, so every step ends in one.
+                tokio::time::sleep(Duration::from_millis(1)).await;
+                let _ = self.hout.send(HandlerOut::UnrecognizedFrame(discv5::socket::UnrecognizedFrame { src_address: SocketAddr::new(IpAddr::V4(Ipv4Addr::LOCALHOST), 1), packet: vec![] })).await;
             }
             other => panic!("svc: unknown op {other}"),
         }
